@@ -2,6 +2,7 @@
 //! Line protocol on stdin, one command per line; results on stdout.
 use cicada::verif_hooks as h;
 use std::io::{self, BufRead};
+mod hl;
 
 fn dump(sh: &h::Shell) {
     let mut ids: Vec<&i32> = sh.jobs.keys().collect();
@@ -61,6 +62,73 @@ fn main() {
             }
             "poll" => { h::try_wait_bg_jobs(&mut sh, false, false); println!("poll pending={}", h::pending_wait_events()); }
             "dump" => dump(&sh),
+            // bounded check of the extracted highlighter: every line over the alphabet (hex, one entry per char group) up to n groups
+            "hlenum" => {
+                if !hl::AVAILABLE { println!("hlenum unavailable"); continue; }
+                let n: usize = parts.get(1).and_then(|x| x.parse().ok()).unwrap_or(3);
+                let alpha: Vec<String> = parts[2..].iter().map(|x| unhex(x)).collect();
+                std::panic::set_hook(Box::new(|_| {}));
+                let mut count: u64 = 0;
+                let mut bad = 0;
+                let mut idx: Vec<usize> = Vec::new();
+                'outer: for len in 1..=n {
+                    idx.clear(); idx.resize(len, 0);
+                    loop {
+                        let line: String = idx.iter().map(|&i| alpha[i].as_str()).collect();
+                        count += 1;
+                        let l2 = line.clone();
+                        let r = std::panic::catch_unwind(move || {
+                            let hlr = hl::CicadaHighlighter;
+                            hlr.highlight(&l2)
+                        });
+                        let verdict = match r {
+                            Err(_) => Some("PANIC".to_string()),
+                            Ok(styles) => {
+                                let mut why = None;
+                                let mut prev = 0usize;
+                                for (rg, _st) in styles.iter() {
+                                    if rg.start > rg.end || rg.end > line.len() || !line.is_char_boundary(rg.start) || !line.is_char_boundary(rg.end) || rg.start < prev {
+                                        why = Some(format!("BADRANGE {}..{}", rg.start, rg.end)); break;
+                                    }
+                                    prev = rg.end;
+                                }
+                                why
+                            }
+                        };
+                        if let Some(v) = verdict {
+                            bad += 1;
+                            if bad <= 5 { println!("hlbad {} {}", hex(&line), v); }
+                        }
+                        // next tuple
+                        let mut k = len;
+                        loop {
+                            if k == 0 { break; }
+                            k -= 1;
+                            idx[k] += 1;
+                            if idx[k] < alpha.len() { break; }
+                            idx[k] = 0;
+                            if k == 0 { continue 'outer; }
+                        }
+                        if idx.iter().all(|&i| i == 0) { break; }
+                    }
+                }
+                let _ = std::panic::take_hook();
+                println!("hlenum done {} bad {}", count, bad);
+            }
+            "hl" => {
+                let l = unhex(parts.get(1).unwrap_or(&"e"));
+                let l2 = l.clone();
+                std::panic::set_hook(Box::new(|_| {}));
+                let r = std::panic::catch_unwind(move || { let hlr = hl::CicadaHighlighter; hlr.highlight(&l2) });
+                let _ = std::panic::take_hook();
+                match r {
+                    Err(_) => println!("hl PANIC"),
+                    Ok(st) => {
+                        let okr = st.iter().all(|(rg, _)| rg.start <= rg.end && rg.end <= l.len() && l.is_char_boundary(rg.start) && l.is_char_boundary(rg.end));
+                        println!("hl {}", if okr { "ok" } else { "BADRANGE" });
+                    }
+                }
+            }
             "parse_line" => {
                 let l = &line["parse_line ".len().min(line.len())..];
                 let li = h::parse_line(l);
